@@ -601,6 +601,7 @@ impl CodegenContext {
             &self.functions,
             self.try_current_target_pc(),
         )
+        .in_pass(self.pass_idx)
     }
 
     fn emit(&mut self, span: Span, bytes: &[u8]) -> CoreResult<()> {
@@ -1504,6 +1505,9 @@ impl CodegenContext {
     fn record_usages(&mut self, usages: Vec<SymbolUsage>) -> bool {
         let mut complete = true;
         for usage in usages {
+            if usage.is_query {
+                continue;
+            }
             self.analysis.add_symbol_usage(
                 &self.symbols,
                 self.current_scope_nx,
@@ -1676,19 +1680,19 @@ impl CodegenContext {
                 args: &[&Located<Expression>],
             ) -> EvaluationResult<Option<SymbolData>> {
                 let expr = args.first().unwrap();
-                match ctx.evaluate_expression(expr, false) {
-                    Ok(result) => {
-                        if result.is_some() {
-                            // It is defined, so what is mentioned here is a usage like any other (for rename, find
-                            // references, ...). When it isn't, it must not be reported as an unknown identifier.
-                            let _ = ctx.evaluate_expression(expr, true);
-                            Ok(Some(1.into()))
-                        } else {
-                            Ok(Some(0.into()))
-                        }
-                    }
-                    Err(_) => Ok(Some(0.into())),
+                // Something is defined when it has been defined by now: before this point, in source order. What is
+                // only known because the previous pass defined it further down does not count, otherwise the answer
+                // would depend on the number of passes (and '.if !defined(x) { .const x = .. }' would define x in
+                // every other pass).
+                let from = ctx.usage_count();
+                let defined = matches!(ctx.evaluate_expression(expr, true), Ok(Some(_)))
+                    && ctx.all_defined_by_now(from);
+                if !defined {
+                    // What is mentioned is a usage like any other (for rename, find references, ...) when it is
+                    // defined. When it isn't, it must not be reported as an unknown identifier.
+                    ctx.mark_as_queries(from);
                 }
+                Ok(Some((defined as i64).into()))
             }
         }
         self.register_fn("defined", DefinedFn {});
